@@ -32,11 +32,11 @@ Definition get_schema_namespace (t : str) : str :=
 Definition has_hash_mid (s : str) : Prop :=
   exists a b, s = a ++ ch_slash :: ch_hash :: ch_slash :: b.
 
-(* Which of the two repairs of hed_schema.py the model follows (both true = the code as it is now):
-   fix_index  the walk runs over the text as written, every lookup folds its own key, so that the
+(* Which of the two repairs of hed_schema.py the model follows (both true = the code as it is in /repo):
+   fix_index  (fix commit de8c862) the walk runs over the text as written, every lookup folds its own key, so that the
               index used to cut the remainder off the written text refers to that text
               (before: the walk ran over the folded text, whose length can differ);
-   fix_hash   the walk never steps onto a '#' placeholder entry (before: it did, and the first
+   fix_hash   (fix commit 03a83bd) the walk never steps onto a '#' placeholder entry (before: it did, and the first
               "/#" of "X/#/#/more" was dropped from the remainder). *)
 Record fixes := mkFixes { fix_index : bool; fix_hash : bool }.
 Definition repaired : fixes := mkFixes true true.
